@@ -10,7 +10,7 @@
    fn = "Mediatype" : out = minify.Mediatype(in) (directly or as the HTML type attribute).
 
    Conforms  is the verdict (the property's relation, spec/DataUri.tla).
-   DriftInfo compares the same line with the transcriptions of the pinned code (MtMachine.AsIs;
+   DriftInfo compares the same line with the transcriptions of the current code (MtMachine.AsIs;
              DataUriAsIs.AsIsNone for calls without a registered minifier); a difference is reported as
              "DRIFT..." - information about the models, never a verdict. *)
 EXTENDS MtMachine, DataUriAsIs, TraceIO
